@@ -313,7 +313,7 @@ CHECKS["C01"] = dict(
           "exactly the sum / the array in argument order / the value of its own request. part partial: a client that awaits reply k before it completes request k+1: every write carries "
           "the rest of request k together with the first 1..1000 bytes of request k+1, then reply k must arrive (10 s) although the next request is incomplete. The pipeline part also sends the "
           "commands the proxy answers itself (PING, SELECT, INFO, TIME, HOTKEY) with arguments that contain line ends and RESP-looking text: one reply each, whatever it says. Non-trivial: >= 2 nodes and the node log shows a "
-          "later-arrived command of one node answered before an earlier one of another. Distinct by canonical JSON."),
+          "later-arrived command of one node answered before an earlier one of another. pipeline: in a quarter of the cases every slot moves after the table was loaded and the table stays stale (every keyed request takes a MOVED hop); widepipe: the same in a tenth of the cases, with nodes answering 0/20/100 us late (known finding redirected-resend-blocks-backend-readers: identified by a goroutine inside handleRedirection blocked in client.Send when a reply is 12 s overdue; every other missing or wrong reply is a violation). Distinct by canonical JSON."),
     assumptions=["a missing reply is judged by a deadline (20 s; 150 s in the deep part, whose cases are bounded to a few seconds of backend work)"],
     parts=[
         dict(name="deep", test="TestDeepPipeline", kind="rapid", crash_is_violation=True, checks={"quick": 2, "thorough": 120}, shards=16, timeout={"quick": 900, "thorough": 3400}, shrinktime="60s", gomaxprocs=4),
